@@ -196,7 +196,10 @@ class C15(Property):
         names = [p["r"] for p in case["pool"]]
         case["scripts"] = {"T0": gen_script(rng, names, budget=[rng.randint(3, 8)])}
         for i in range(1, case["nthreads"]):
-            case["scripts"][f"T{i}"] = {"before": rng.randint(0, 2), "after": gen_script(rng, names, budget=[rng.randint(0, 3)])}
+            case["scripts"][f"T{i}"] = {"before": rng.randint(0, 2), "after": gen_script(rng, names, budget=[rng.randint(0, 3)]),
+                                        # a pooled worker: it may already have a runtime of its own (it issued requests) when it inherits,
+                                        # and it may inherit again later, from a thread that never touched labrea
+                                        "probe_before": rng.random() < 0.4, "second": rng.choice([None, None, "pristine"])}
 
     def _gen_register(self, rng, case):
         # a lost update needs two writers, and a pre-emption between the read and the write of the table
@@ -367,6 +370,9 @@ class C15(Property):
             parent.probe("T0:end")
 
         pst = sched.spawn("T0", pbody)
+        import threading as _threading
+
+        pristine = _threading.Thread(name="PRISTINE")  # never started, never touched labrea
         for tid, spec in case["scripts"].items():
             if tid == "T0":
                 continue
@@ -375,6 +381,9 @@ class C15(Property):
             def wbody(ws=ws, spec=spec):
                 for _ in range(spec["before"]):
                     sched.yield_point("op")
+                if spec.get("probe_before"):
+                    ws.probe(ws.tid + ":before-inherit")  # served by defaults; gives the worker a runtime of its own
+                    res.bump("inherit_after_own_requests")
                 c = sched.stamp(("inherit-invoke",))
                 lrt.inherit(pst.thread)
                 d = sched.stamp(("inherit-return",))
@@ -407,6 +416,13 @@ class C15(Property):
                 except SimRaise:
                     pass
                 ws.probe(ws.tid + ":end")  # constant afterwards, whatever the parent does
+                if spec.get("second") == "pristine" and not res.violations:
+                    # a second inherit, from a thread object that never used labrea: the worker gets the defaults
+                    lrt.inherit(pristine)
+                    ws.base_holds = {}
+                    ws.stack = []
+                    res.bump("second_inherit_from_pristine_thread")
+                    ws.probe(ws.tid + ":after-second-inherit")
 
             sched.spawn(tid, wbody)
         return lambda: None
